@@ -6,6 +6,8 @@ CONSTANTS
   StepUntil = 193943
   TailFrom = 2921940
   MaxN = 100000
+  LeapRule = "gregorian"
+  StartDay = 0
   NumLane = 10000
 INVARIANTS CalAgree CalEnd ClockAgree NumAgree
 CHECK_DEADLOCK FALSE
